@@ -15,6 +15,9 @@ import glob
 for _f in sorted(glob.glob(os.path.join(ROOT, 'tools', 'manifest.d', 'C*.json'))):
     CHECKS[os.path.basename(_f)[:-5]] = json.load(open(_f))
 ALL = ['C%02d' % i for i in range(1, 21)]
+# only properties listed in tools/manifest.d/ENABLED are claimed (their check passes on the unchanged tree)
+ENABLED = open(os.path.join(ROOT, 'tools', 'manifest.d', 'ENABLED')).read().split()
+CHECKS = {k: v for k, v in CHECKS.items() if k in ENABLED}
 
 
 def main():
